@@ -2,6 +2,12 @@
 from ._structure import run_structure
 
 META = ("other",
+        "C13.R1 grammar refinement - the token language each statement renderer can write (NFA built from the linked template "
+        "IR: guards free, but correlated boolean flags, shared first-flags, loop-index guards, constant enum arguments, "
+        "variants excluded by a calling match and fold decision tables tracked) is included in the dialect grammar skeleton "
+        "specs/<dialect>.ebnf; a counterexample is a shortest token string with the emission that leaves the grammar; C13.R6 "
+        "hook discipline - inner renderers of overridable backend hooks (specs/hooks.json) are called only from implementations "
+        "of the hook;  "
         "Structural conditions of the SQLite schema renderers: C13.R2 type table - every ColumnType variant is tabulated (with "
         "and without AUTOINCREMENT), SQLite's documented affinity algorithm is applied to the emitted type name and compared "
         "with the intended affinity; an AUTOINCREMENT column is declared exactly INTEGER; unsupported types are refused; "
